@@ -226,3 +226,109 @@ Proof.
     + destruct (Hhit a b Ha Hb E) as [Hs Hs']. rewrite Hs. rewrite Hs' in Hle. apply fv_le_trans with T; assumption.
     + rewrite Hmiss in Hle by assumption. exact Hle.
 Qed.
+
+(* ------------------------------------------------------------------ the table represents a list of edges *)
+Definition lift (e : edge) : oedge := (fst (fst e), snd (fst e), Fin (snd e)).
+Definition has_edge (L : list oedge) (a b : Z) (f : fv) : Prop := In (a, b, f) L \/ In (b, a, f) L.
+Definition repr (s : state) (L : list oedge) : Prop :=
+  forall a b, in_range s a -> in_range s b -> a <> b ->
+  forall f, (tab s a b = f /\ f <> PInf) <-> has_edge L a b f.
+
+Lemma okey_hit a b f u v : okey (a, b, f) = key u v -> pair_hit a b u v = true.
+Proof. unfold okey, key, pair_hit. cbn [fst snd]. intros H. inversion H. lia. Qed.
+Lemma hit_okey a b f u v : pair_hit a b u v = true -> okey (a, b, f) = key u v.
+Proof. unfold okey, key, pair_hit. cbn [fst snd]. intros H. f_equal; lia. Qed.
+Lemma pair_hit_sym a b u v : pair_hit b a u v = pair_hit a b u v.
+Proof. unfold pair_hit. destruct (a =? u), (b =? v), (a =? v), (b =? u); reflexivity. Qed.
+
+Lemma repr_step s s1 u v X T others Lold Lnew :
+  (forall x, In x Lold <-> (X <> PInf /\ x = (u, v, X)) \/ In x others) ->
+  (forall x, In x Lnew <-> (T <> PInf /\ x = (u, v, T)) \/ In x others) ->
+  ~ In (key u v) (map okey others) -> (forall x, in_range s1 x <-> in_range s x) -> u <> v ->
+  (forall a b, in_range s a -> in_range s b -> tab s1 a b = if pair_hit a b u v then T else tab s a b) ->
+  repr s Lold -> repr s1 Lnew.
+Proof.
+  intros Hold Hnew Hfresh Hr Huv Htab R a b Ha Hb Hab f. apply Hr in Ha. apply Hr in Hb.
+  assert (Hoth : forall a' b' f', pair_hit a' b' u v = true -> ~ In (a', b', f') others).
+  { intros a' b' f' E Hin. apply Hfresh. apply in_map_iff. exists (a', b', f'). split; [apply hit_okey; exact E|exact Hin]. }
+  unfold has_edge. rewrite !Hnew. rewrite Htab by assumption.
+  destruct (pair_hit a b u v) eqn:E.
+  - assert (E' : pair_hit b a u v = true) by (rewrite pair_hit_sym; exact E).
+    assert (Hcase : (a = u /\ b = v) \/ (a = v /\ b = u)) by (unfold pair_hit in E; lia).
+    split.
+    + intros [<- Hf]. destruct Hcase as [[-> ->]|[-> ->]]; [left|right]; left; auto.
+    + intros [[[Hf Hx]|Hx]|[[Hf Hx]|Hx]].
+      * inversion Hx; subst. auto.
+      * exfalso. exact (Hoth a b f E Hx).
+      * inversion Hx; subst. auto.
+      * exfalso. exact (Hoth b a f E' Hx).
+  - assert (E' : pair_hit b a u v = false) by (rewrite pair_hit_sym; exact E).
+    rewrite (R a b Ha Hb Hab f). unfold has_edge. rewrite !Hold.
+    assert (N1 : forall Y, (a, b, f) <> (u, v, Y)) by (intros Y Hx; inversion Hx; subst; unfold pair_hit in E; lia).
+    assert (N2 : forall Y, (b, a, f) <> (u, v, Y)) by (intros Y Hx; inversion Hx; subst; unfold pair_hit in E; lia).
+    split; (intros [[[_ Hx]|Hx]|[[_ Hx]|Hx]];
+      [exfalso; exact (N1 _ Hx)|left; right; exact Hx|exfalso; exact (N2 _ Hx)|right; right; exact Hx]).
+Qed.
+
+Lemma NoDup_map_replace {A B} (k : A -> B) l1 x y l2 :
+  k y = k x -> NoDup (map k (l1 ++ x :: l2)) -> NoDup (map k (l1 ++ y :: l2)).
+Proof. intros E. rewrite !map_app. cbn [map]. rewrite E. auto. Qed.
+Lemma NoDup_map_remove {A B} (k : A -> B) l1 x l2 :
+  NoDup (map k (l1 ++ x :: l2)) -> NoDup (map k (l1 ++ l2)) /\ ~ In (k x) (map k (l1 ++ l2)).
+Proof.
+  rewrite !map_app. cbn [map]. intros H. split; [apply NoDup_remove_1 in H; exact H|apply NoDup_remove_2 in H; exact H].
+Qed.
+
+Lemma in_o (T : fv) (u v : Z) (x : oedge) :
+  In x (match T with PInf => [] | _ => [(u, v, T)] end) <-> (T <> PInf /\ x = (u, v, T)).
+Proof.
+  destruct T; cbn [In];
+    first [split; [intros [A|[]]; split; [discriminate|auto]|intros [_ A]; left; auto]
+          |split; [intros []|intros [A _]; congruence]].
+Qed.
+
+Lemma process_loop_conn V : forall es s done out,
+  Coh s -> tbl_ok V s -> incl (map snd es) V ->
+  (forall u v t, In (u, v, t) es -> in_range s u /\ in_range s v /\ u <> v) ->
+  repr s (done ++ map lift es) -> NoDup (map okey (done ++ map lift es)) ->
+  process_loop false s es = Some out ->
+  exists s', Coh s' /\ nvert s' = nvert s /\ repr s' (done ++ out) /\
+             forall tau a b, conn s tau a b <-> conn s' tau a b.
+Proof.
+  induction es as [|[[u v] t] es IH]; intros s done out C HV Hin Hrng R Hnd H; cbn [process_loop] in H.
+  - inversion H; subst. exists s. cbn [map] in R. split; [exact C|]. split; [reflexivity|]. split; [exact R|]. tauto.
+  - destruct (Hrng u v t (or_introl eq_refl)) as (Hu & Hv & Huv).
+    destruct (process_edge false s (u, v, t)) as [[s1 o]|] eqn:E; [|discriminate].
+    destruct (process_loop false s1 es) as [r|] eqn:Er; [|discriminate]. inversion H; subst out. clear H.
+    cbn [map] in R, Hnd. change (lift (u, v, t)) with (u, v, Fin t) in R, Hnd.
+    assert (Ht : tab s u v = Fin t).
+    { apply (proj2 (R u v Hu Hv Huv (Fin t))). left. apply in_or_app. right. left. reflexivity. }
+    pose proof (process_edge_conn V s u v t s1 o C HV Hu Hv Huv Ht E) as Hconn.
+    destruct (process_edge_coh false s u v t s1 o C Hu Hv Huv E) as [C1 Hn1].
+    destruct (process_edge_effect V s u v t s1 o C HV Hu Hv Huv E) as (T & HT & Ho & _ & Htab & _).
+    pose proof E as E2. apply process_edge_spec with (V := V) in E2; [|exact HV|apply Hin; left; reflexivity].
+    destruct E2 as [HV1 _].
+    destruct (NoDup_map_remove okey done (u, v, Fin t) (map lift es) Hnd) as [Hnd' Hfresh].
+    change (okey (u, v, Fin t)) with (key u v) in Hfresh.
+    assert (Htab' : forall a b, in_range s a -> in_range s b -> tab s1 a b = if pair_hit a b u v then T else tab s a b).
+    { intros a b Ha Hb. rewrite Htab by assumption. destruct (pair_hit a b u v) eqn:Eh; [|reflexivity].
+      destruct (fv_eqb T (Fin t)) eqn:Eq; [|reflexivity]. apply fv_eqb_eq in Eq. subst T.
+      assert (Hcase : (a = u /\ b = v) \/ (a = v /\ b = u)) by (unfold pair_hit in Eh; lia).
+      destruct Hcase as [[-> ->]|[-> ->]]; [exact Ht|]. rewrite tab_sym by assumption. exact Ht. }
+    assert (R1 : repr s1 ((done ++ o) ++ map lift es)).
+    { apply repr_step with (s := s) (u := u) (v := v) (X := Fin t) (T := T) (others := done ++ map lift es)
+                           (Lold := done ++ (u, v, Fin t) :: map lift es); try assumption.
+      - intros x. rewrite !in_app_iff. cbn [In]. split; [intros [A|[A|A]]|intros [[_ A]|[A|A]]]; auto.
+        left. split; [discriminate|auto].
+      - intros x. rewrite Ho. rewrite !in_app_iff. rewrite in_o. tauto.
+      - intros x. unfold in_range. rewrite Hn1. tauto. }
+    assert (Hnd1 : NoDup (map okey ((done ++ o) ++ map lift es))).
+    { rewrite Ho. destruct T; cbn [app]; try (rewrite <- app_assoc; cbn [app];
+        apply NoDup_map_replace with (x := (u, v, Fin t)); [reflexivity|exact Hnd]).
+      rewrite app_nil_r. exact Hnd'. }
+    destruct (IH s1 (done ++ o) r C1 HV1) as (s' & C' & Hn' & R' & Hc'); try assumption.
+    + intros z Hz. apply Hin. right. exact Hz.
+    + intros u0 v0 t0 H0. unfold in_range. rewrite Hn1. apply (Hrng u0 v0 t0). right. exact H0.
+    + exists s'. split; [exact C'|]. split; [rewrite Hn'; exact Hn1|]. split; [rewrite app_assoc; exact R'|].
+      intros tau a b. rewrite (Hconn tau a b). apply Hc'.
+Qed.
